@@ -9,12 +9,12 @@ UNIT = {
                   {'file': 'riscv_analysis/src/parser/parsing.rs', 'item': 'impl RVParser<T> :: fn run'}],
     'obligations': [
         {'id': 'channels_n.agree', 'recipe': ['channels-search'], 'props': ['C18'], 'kind': 'bounded', 'timeout': 1200,
-         'bound': '21 inputs (clean; a file that includes itself, a cycle of two files, undefined labels in two files - each run must end within 20 s; three undefined labels; a label token where an immediate is expected; lints of several kinds; parse errors; a CFG error followed by parse errors; two diagnostics on one range; titles with '
+         'bound': '23 inputs (clean; an include name beyond the basic multilingual plane quoted in a title; 51 diagnostics spread over three files; a file that includes itself, a cycle of two files, undefined labels in two files - each run must end within 20 s; three undefined labels; a label token where an immediate is expected; lints of several kinds; parse errors; a CFG error followed by parse errors; two diagnostics on one range; titles with '
                   'a backslash and with a quote; tabs; CR/LF; multi-byte characters in comments; diagnostics on lines 10 and 100; two include layouts with '
                   'diagnostics in both files; a missing include; unreachable code, stack and ecall diagnostics) x 6 channel settings',
          'clause': '--json, --compact and the pretty printer (each with and without --all-files) and RVParser::run report the same diagnostics - severity, '
                    'title, file, line, columns - in the same order within each file, sorted by position; the JSON is valid and of the documented shape; '
-                   'titles are non-empty and a kind of diagnostic has one severity; each excerpt shows the referred line with aligned gutters and the '
+                   'titles are non-empty and a kind of diagnostic has one severity; without --all-files the text printers say how many diagnostics are in other files; each excerpt shows the referred line with aligned gutters and the '
                    'marker under the reported columns',
          'tier': 'quick'},
     ],
